@@ -705,7 +705,10 @@ impl RadixDivisionParams {
                 for limb in limbs[..limb_count].iter_mut().rev() {
                     (limb.0, carry.0) = div2by1(carry.0, limb.0, &self.reciprocal);
                 }
-                if limbs[limb_count - 1] << lshift < div_limb {
+                // The top quotient limb can be carried into the next round as the initial
+                // remainder only if it is below the divisor. (Comparing the *shifted* limb would
+                // wrap for limbs with high bits set and drop leading digits.)
+                if limbs[limb_count - 1] < div_limb {
                     hi = limbs[limb_count - 1];
                     limb_count -= 1;
                 } else {
